@@ -350,6 +350,13 @@ impl BreakerBase {
 
 impl Drop for BreakerBase {
     fn drop(&mut self) {
+        // verification hook (schedulable build only): when the controlled scheduler tears
+        // down a failed execution it drops the lazy statics while unwinding; its primitives
+        // must not be touched then (a second panic would abort the whole exploration)
+        #[cfg(sentinel_verif_sched)]
+        if std::thread::panicking() {
+            return;
+        }
         let listeners = state_change_listeners().lock().unwrap();
         for listener in &*listeners {
             listener.on_circuit_breaker_drop(self.current_state(), Arc::clone(&self.rule));
